@@ -1,4 +1,5 @@
 import AM.Model.AuditLine
+import AM.Proofs.C07
 /-! C07, audit side: the record terminator is not part of the record — for EVERY byte string `l`,
 `ParseLogLine (l ++ "\n")` sees exactly what `ParseLogLine l` sees. -/
 namespace AM.C07A
@@ -206,6 +207,22 @@ theorem audit_line (l : Str) : split (l ++ ['\n']) = split l := by
       have e3 : (l ++ ['\n']).drop (i + 4) = l.drop (i + 4) ++ ['\n'] :=
         List.drop_append_of_le_length (by omega)
       rw [e1, e2, e3, trimSpace_snoc_nl]
+
+/-- composition with C12's framing theorem: record lines written to the audit pipe in ANY pieces reach the
+parser as the lines themselves would — each delivered record splits exactly as its line does, in order -/
+theorem audit_through_the_pipe (lines : List Str) (chunks : List Str)
+    (hnl : ∀ l ∈ lines, '\n' ∉ l)
+    (hc : chunks.flatten = (lines.map (· ++ ['\n'])).flatten) :
+    (Pipe.run '\n' none chunks).1.map split = lines.map split := by
+  have hframes : ∀ f ∈ lines.map (· ++ ['\n']), ∃ body, f = body ++ ['\n'] ∧ '\n' ∉ body := by
+    intro f hf
+    obtain ⟨l, hl, rfl⟩ := List.mem_map.mp hf
+    exact ⟨l, rfl, hnl l hl⟩
+  rw [AM.C12.run_eq_expected, hc]
+  simp only [Pipe.expected, AM.C07.records_of_frames '\n' _ hframes, List.map_map]
+  apply List.map_congr_left
+  intro l _
+  exact audit_line l
 
 /-- the statement is not vacuous: a real record splits into its type and message, terminator or not -/
 example : (split ("type=LOGIN msg=audit(1.000:2): pid=7 ".toList ++ [b 0xc2, b 0xa0, '\n'])).map (·.1) =
